@@ -65,6 +65,7 @@ type Contract struct {
 	Uses     []string // lemma instantiations "name(args)" assumed at entry (after being proved separately)
 	Ghostsets []GhostSet // ghost assignments executed at every return (ghost code kept in the contract)
 	Before   map[string][]*Clause // call-site assertions keyed by callee, evaluated with the locals visible at the call
+	OnRecv   []*Clause // ASSUMED of every error value received from a channel in this function ($v); listed as assumption
 }
 
 type GhostSet struct {
@@ -223,7 +224,7 @@ func (db *SpecDB) loadSpecFile(path string, prefix string) error {
 		lines = append(lines, lineT{strings.TrimSpace(t), i + 1})
 	}
 	// join continuation lines: a line that does not start with a directive keyword continues the previous one
-	kw := regexp.MustCompile(`^(contract|stub|rec func|func|ufunc|ghost field|const|axiom|lemma|owner|prop|requires|ensures|invariant|modifies|fresh|loop|trusted|maypanic|pure|nooverflow|inline|thread|use|by induction|ghostset|also|split|before)\b`)
+	kw := regexp.MustCompile(`^(contract|stub|rec func|func|ufunc|ghost field|const|axiom|lemma|owner|prop|requires|ensures|invariant|modifies|fresh|loop|trusted|maypanic|pure|nooverflow|inline|thread|use|by induction|ghostset|also|split|before|onrecv)\b`)
 	var joined []lineT
 	for _, l := range lines {
 		if kw.MatchString(l.text) || len(joined) == 0 {
@@ -399,6 +400,9 @@ func (db *SpecDB) loadSpecFile(path string, prefix string) error {
 				return fail(l, "modifies outside contract")
 			}
 			locs := splitList(strings.TrimPrefix(t, "modifies "))
+			if strings.Contains(t, " if ") {
+				locs = []string{strings.TrimSpace(strings.TrimPrefix(t, "modifies "))}
+			}
 			if curLoop != nil {
 				curLoop.Modifies = append(curLoop.Modifies, locs...)
 			} else {
@@ -434,6 +438,16 @@ func (db *SpecDB) loadSpecFile(path string, prefix string) error {
 				cur.Before = map[string][]*Clause{}
 			}
 			cur.Before[callee] = append(cur.Before[callee], cl)
+		case strings.HasPrefix(t, "onrecv "):
+			if cur == nil {
+				return fail(l, "onrecv outside contract")
+			}
+			src := strings.TrimSpace(strings.TrimPrefix(t, "onrecv "))
+			e, err := parseExpr(src)
+			if err != nil {
+				return fail(l, "%v", err)
+			}
+			cur.OnRecv = append(cur.OnRecv, &Clause{Kind: "onrecv", E: stripParens(e), Src: src, File: path, Line: l.no})
 		case strings.HasPrefix(t, "ghostset "):
 			if cur == nil {
 				return fail(l, "ghostset outside contract")
